@@ -24,7 +24,7 @@ def main(ctx, args, pid="C02", backend="vm"):
         "Model/Core.lean is the reference semantics (hand written from the language documentation and the code); generated programs stay in its fragment",
         "floating point: the model computes with Lean's Float (C double); only exactly rounded operations (+,-,*,/,sqrt,abs,comparisons) are generated",
         "the generator (tools/gen/coregen.py) renders one Python AST to mimium source and to the S-expression the model reads",
-        "known findings steer the generator: no stateful construct inside if arms (F3/F4), lambdas stateless (F11)",
+        "known findings steer the generator: lambdas stateless (F11); stateful constructs inside `if` arms are generated (F3 repaired)",
     ]
     known = load_known(pid)
     if not extract(ctx):
